@@ -141,6 +141,7 @@ pub struct Counters {
 	/// gathered reads (ReaderRead scratch buffer) that grew the scratch after an earlier amortised growth
 	/// had left len < capacity, by less than that slack (per the model `fixtures::ScratchSim`)
 	pub scratch_regrow_reads: u64,
+	pub dbg_panics: u64,
 }
 impl Counters {
 	pub fn fields(&self) -> Vec<(&'static str, u64)> {
@@ -168,6 +169,7 @@ impl Counters {
 			("known_answers", self.known_answers),
 			("reads_regrown_block", self.reads_regrown_block),
 			("scratch_regrow_reads", self.scratch_regrow_reads),
+			("dbg_panics", self.dbg_panics),
 		]
 	}
 	pub fn add(&mut self, o: &Counters) {
@@ -200,6 +202,7 @@ impl Counters {
 		self.known_answers = v[20];
 		self.reads_regrown_block = v[21];
 		self.scratch_regrow_reads = v[22];
+		self.dbg_panics = v[23];
 	}
 	pub fn to_line(&self) -> String {
 		self.fields().iter().map(|(k, v)| format!("{k}={v}")).collect::<Vec<_>>().join(" ")
@@ -816,6 +819,51 @@ impl<'f> World<'f> {
 						Err(_) => {
 							self.counters.panics += 1;
 							"panic".to_owned()
+						}
+					}
+				}
+			},
+			Op::DbgPanic(src, mode) => match self.schema_ref(src) {
+				None => self.absent(),
+				Some(s) => {
+					self.note_reader_schema_use(src);
+					self.counters.dbg_panics += 1;
+					struct Sink {
+						out: String,
+						left: usize,
+					}
+					impl std::fmt::Write for Sink {
+						fn write_str(&mut self, x: &str) -> std::fmt::Result {
+							if self.left == 0 {
+								panic!("sink refuses to write");
+							}
+							self.left -= 1;
+							self.out.push_str(x);
+							Ok(())
+						}
+					}
+					struct RenderOnDrop<'a>(&'a Schema, &'a mut String);
+					impl Drop for RenderOnDrop<'_> {
+						fn drop(&mut self) {
+							*self.1 = format!("{:?}", self.0);
+						}
+					}
+					match mode {
+						0 | 1 => {
+							let mut sink = Sink { out: String::new(), left: if mode == 0 { 0 } else { 2 } };
+							let r = catch_unwind(AssertUnwindSafe(|| {
+								use std::fmt::Write;
+								write!(sink, "{s:?}")
+							}));
+							format!("{}:{}", if r.is_err() { "panicked" } else { "completed" }, sink.out)
+						}
+						_ => {
+							let mut text = String::new();
+							let r = catch_unwind(AssertUnwindSafe(|| {
+								let _g = RenderOnDrop(s, &mut text);
+								panic!("unwinding through the guard");
+							}));
+							format!("{}:{text}", if r.is_err() { "rendered-while-unwinding" } else { "no-panic" })
 						}
 					}
 				}
